@@ -527,4 +527,23 @@ example :
     unsealWith c.phys c.cur = (.unsealed, c.bar.keyring.orElse fun _ => (unsealWith c.phys c.cur).2) ∧
     (unsealWith c.phys c.prev).1 = .invalid ∧ (unsealWith c.phys ⟨c.cur.skey, 2, 2⟩).1 = .insufficient := by decide
 
+/-! ### refused unseal -/
+
+/-- **An unseal that is refused after the barrier was opened ends sealed**: whatever the unseal attempt did (it may have
+opened the barrier with the right shares), the node then seals again (`unsealInternal`, repair F78): the barrier is
+sealed and holds no keyring — for every core state and both share sets. -/
+theorem refused_unseal_ends_sealed (c : CoreSt) (new : Bool) :
+    (((c.exec (.unsealC new)).1.exec .sealC).1.bar.sealed = true) ∧
+    (((c.exec (.unsealC new)).1.exec .sealC).1.bar.keyring = none) := by
+  simp [CoreSt.exec]
+
+/-- **Finding F78 (repaired)**: without sealing again, a refused unseal with the right shares leaves the barrier open
+and holding the keyring on a node that reports itself sealed. -/
+theorem refused_unseal_without_reseal_cex :
+    let c := (({} : CoreSt).exec (.boot 3 2)).1
+    let c1 := (c.exec .sealC).1
+    (c1.bar.sealed = true ∧ c1.bar.keyring = none) ∧
+    ((c1.exec (.unsealC true)).1.bar.sealed = false ∧ (c1.exec (.unsealC true)).1.bar.keyring.isSome = true) := by
+  decide
+
 end C10
